@@ -50,6 +50,9 @@ TRANSPARENT = {
 }
 
 BYTE_CONTAINERS = {"bytes::bytes_mut::BytesMut", "bytes::bytes::Bytes", "alloc::vec::Vec<u8>"}
+# two spellings of one library operation (chrono: `impl Sub<DateTime<Tz>> for DateTime<Tz>` is defined as
+# `self.signed_duration_since(rhs)`)
+CALLEE_ALIASES = {"chrono::datetime::DateTime::<Tz>::signed_duration_since": "core::ops::arith::Sub::sub"}
 NOT_CALLEES = {"anyhow::__private::not", "core::ops::bit::Not::not"}
 
 # adapters that preserve the success payload: ok(adapter(x, ..)) == ok(x)
@@ -95,6 +98,7 @@ class Prov:
                 self.phi_locals.add(l)
         self.memo = {}
         self._sum_memo = {}
+        self._enum_memo = {}
         self._sum_busy = set()
 
     # ------------------------------------------------------------------ defs
@@ -180,7 +184,7 @@ class Prov:
                     if sub is None and src not in self.phi_locals and len(self.defsites.get(src, [])) == 1:
                         n2 = self.node_at(self.defsites[src][0])
                         if self.defsites[src][0][1] != "T" and n2["rv"]["k"] == "aggregate" and n2["rv"].get("ak") == "adt" \
-                                and n2["rv"].get("adt") in STD_SUM_TYPES:
+                                and self._sum_adt(n2["rv"].get("adt")) and len(n2["rv"]["ops"]) <= 1:
                             sub = ((n2["rv"]["variant"], self.operand_term(n2["rv"]["ops"][0]) if n2["rv"]["ops"] else ("unit",)),)
                     if sub is None:
                         okay = False
@@ -192,7 +196,7 @@ class Prov:
                             per.setdefault(v, set()).add(pl)
                     continue
                 if site[1] == "T" or node["rv"]["k"] != "aggregate" or node["rv"].get("ak") != "adt" \
-                        or node["rv"].get("adt") not in STD_SUM_TYPES:
+                        or not self._sum_adt(node["rv"].get("adt")) or len(node["rv"]["ops"]) > 1:
                     okay = False
                     break
                 rv = node["rv"]
@@ -216,6 +220,16 @@ class Prov:
             self._sum_busy.discard(l)
         self._sum_memo[l] = res
         return res
+
+    def _sum_adt(self, adt):
+        """Option / Result / ControlFlow / Poll, or a workspace enum (a private decision type such as
+        `enum Placement { Root(Id), Child(Id), Conflict(Id) }` returned by a spliced helper)."""
+        if adt in STD_SUM_TYPES:
+            return True
+        if adt not in self._enum_memo:
+            a = self.body.prog.adt(adt) if isinstance(adt, str) else None
+            self._enum_memo[adt] = bool(a is not None and a.get("kind") == "Enum" and a["def"] == adt)
+        return self._enum_memo[adt]
 
     def local_term(self, l):
         body = self.body
@@ -280,6 +294,7 @@ class Prov:
                         return ("call", "alloc::string::ToString::to_string", bb, (e[3][0],))
         if callee in NOT_CALLEES and len(args) == 1 and node["dest"]["ty"] == "bool":
             return ("unop", "Not", args[0])       # `ensure!(cond)` tests `anyhow::__private::not(cond)`
+        callee = CALLEE_ALIASES.get(callee, callee)
         return ("call", callee, bb, args)
 
     def operand_term(self, o):
@@ -483,6 +498,11 @@ def mk_field(t, name):
             return mk_ok(t[1])
         if t[2] in ERR_VARIANTS:
             return mk_err(t[1])
+    if t[0] == "variant" and name == "0" and len(t) == 3:
+        # the payload of one variant of a workspace enum value that was built on other paths
+        pl = phi_payload(t[1], (t[2],))
+        if pl is not None:
+            return pl
     return ("field", t, name)
 
 
